@@ -18,6 +18,11 @@ mod physmem;
 mod c08;
 mod c14;
 mod c15;
+mod trap;
+mod c11;
+mod c16;
+mod c17;
+mod c18;
 
 use gen::Rng;
 use out::Out;
@@ -98,6 +103,17 @@ fn main() {
         "C08" => c08::run(&mut out, &mut rng, tier),
         "C14" => c14::run(&mut out, &mut rng, tier),
         "C15" => c15::run(&mut out, &mut rng, tier),
+        "C11" => c11::run(&mut out, &mut rng, tier),
+        "C16" => c16::run(&mut out, &mut rng, tier),
+        "C17" => c17::run(&mut out, &mut rng, tier),
+        "C18" => c18::run(&mut out, &mut rng, tier),
+        "trapselftest" => match trap::selftest() {
+            Ok(()) => eprintln!("trap selftest ok ({} traps)", trap::total_traps()),
+            Err(e) => {
+                eprintln!("trap selftest FAILED: {}", e);
+                std::process::exit(2);
+            }
+        },
         _ => {
             eprintln!("unknown property {}", prop);
             std::process::exit(2);
